@@ -833,6 +833,12 @@ class Table(Vector):
 				self._underlying[col_idx][row_spec] = value.cols()[i]
 			return
 
+		# CASE C2: One target column and a plain vector (or range) of values
+		# t[:, 'x'] = Vector([1, 2, 3])
+		if len(target_indices) == 1 and isinstance(value, (Vector, range)):
+			self._underlying[target_indices[0]][row_spec] = value
+			return
+
 		# CASE D: Raw 2D Iterable Assignment (List of Columns? List of Rows?)
 		# Ambiguity Trap: Is [[1,2], [3,4]] two rows of two, or two columns of two?
 		# Vector standard: "Iterables usually mean columns". 
